@@ -56,6 +56,28 @@ def det_decls(tier: str, seed: int):
             cfg.feats = dict(items)
             cfg.split = [rng.randint(1, 6), rng.randint(1, 6)]
             out.append((d, cfg))
+    # unconventional parameters: mixed-case custom names, every vis, struct names; far-apart values
+    odd_names = {"into": "toRepr", "MIN": "First", "MAX": "last_one", "as_str": "nameOf", "next": "Succ",
+                 "try_from": "from_Prim", "iter": "all", "names": "allNames", "range": "between", "from_str": "parse_it",
+                 "next_back": "pred"}
+    for r, vs in (("i64", [-(1 << 63), -1000, 0, 1000, (1 << 63) - 2]),
+                  ("i128", [-(1 << 63), -(1 << 63) + 1, -7, 8, 9, (1 << 63) - 1]),
+                  ("u16", [1, 2, 3, 5, 8, 13, 21, 34, 55, 89, 144, 233, 377, 610, 987, 1597, 2584, 4181, 6765])):
+        seq = shapes.order_values(vs, "perm", rng)
+        d = shapes.build_decl(r, seq, "det_odd_%s" % r, "mixed", "multibyte", rng)
+        for k in range(2):
+            t = {"as_str": ["match", "table"][k], "from_str": ["table", "match"][k], "FromStr": "auto", "iter": ["next_and_back", "table"][k]}
+            cfg = corpus.legalize(corpus.cfg_all(t, names=odd_names), d)
+            for i, f in enumerate(list(cfg.feats)):
+                if f in ("as_str", "from_str", "into", "MAX", "MIN", "next", "next_back", "try_from", "names", "range") and (i + k) % 3 == 0:
+                    cfg.feats[f] = dict(cfg.feats[f], vis=["", "pub(crate)", "pub"][(i + k) % 3])
+            cfg.feats["iter"] = dict(cfg.feats["iter"], struct_name="Walker")
+            cfg.feats["names"] = dict(cfg.feats["names"], struct_name="name_walker")
+            items = list(cfg.feats.items())
+            rng.shuffle(items)
+            cfg.feats = dict(items)
+            cfg.split = [rng.randint(1, 5), rng.randint(1, 5), rng.randint(1, 5)]
+            out.append((d, cfg))
     # declarations in ascending order carrying the compile-time sorted check
     for r, n in (("i16", 9), ("u8", 40)):
         vs = [(-4 if r == "i16" else 2) + 2 * i + (i // 5) for i in range(n)]
